@@ -1032,7 +1032,25 @@ func (e *Env) lineBreaksAdvance(c *schema.Ctx) {
 										}
 									}
 								}
-								if hasEq && others {
+								// the if statement that holds the store tests the line table and
+								// nothing else (a further operand — a flag, a constant — would keep
+								// the repeated entry on some runs)
+								own := false
+								ast.Inspect(st, func(m ast.Node) bool {
+									is, ok := m.(*ast.IfStmt)
+									if !ok || !(is.Body.Pos() <= as.Pos() && as.End() <= is.Body.End()) {
+										return true
+									}
+									own = true
+									for _, cj := range splitTopAnd(c.ExprStr(is.Cond)) {
+										cj = strings.TrimSpace(strings.TrimSuffix(strings.TrimPrefix(strings.TrimSpace(cj), "("), ")"))
+										if !strings.Contains(cj, "lines") {
+											own = false
+										}
+									}
+									return true
+								})
+								if hasEq && others && own {
 									dropAt = k
 								}
 							}
